@@ -189,10 +189,15 @@ class C04(Cfg):
                 ok = ret == obs_of(v)
                 if not ok and pos == "default" and v[0] == "B" and ret == "I%d" % (1 if v[1] else 0):
                     ok = True      # a Boolean default comes back as 0/1: left to C05
-            if not ok:
+            # the slot of a variable taken by a literal/default with the same text as the variable's name
+            id_alias = ret == "norow" and pos == "default" and ty in STRINGY and ltok is not None and json_meaning(ltok) == "id"
+            a_alias = fpos == "lit" and ty in STRINGY and ftok is not None and json_meaning(ftok) == "a"
+            if id_alias:
+                res.append(("variable-aliases-literal", "default value \"id\" took the slot of $id: the row is not returned"))
+            elif not ok:
                 res.append(("literal-escape-not-decoded" if esc else "roundtrip",
                             "intended %s returned %s" % (obs_of(v)[:60], ret[:60])))
-            if o.get("sib") != "ok": res.append(("other-field-changed", out[:80]))
+            if o.get("sib") != "ok" and not id_alias: res.append(("other-field-changed", out[:80]))
             if o.get("oth") != "same": res.append(("other-row-changed", out[:80]))
             # ---- matched by an equality filter
             flt = o.get("flt", "")
@@ -200,7 +205,8 @@ class C04(Cfg):
                 exp = [7] + [100 + i for i, d in enumerate(a.get("d", "").split(";")) if d and vals_equal(parse_val(d), v)]
                 exp_s = ",".join(str(x) for x in sorted(exp))
                 if flt != exp_s:
-                    if v[0] == "N" and fpos == "param": sig = "null-param-filter-no-match"
+                    if a_alias: sig = "variable-aliases-literal"
+                    elif v[0] == "N" and fpos == "param": sig = "null-param-filter-no-match"
                     elif esc or fesc: sig = "literal-escape-not-decoded"
                     elif ty == "Float": sig = "float-filter-mismatch"
                     else: sig = "filter-mismatch"
@@ -211,9 +217,12 @@ class C04(Cfg):
                 if t == "-": continue
                 sh = sql_shape(t)
                 key = (which, v[0] == "N")
-                if key not in shapes: shapes[key] = (sh, idx)
+                aliasing = (which == "fsql" and a_alias) or (which == "sql" and id_alias)
+                if key not in shapes: shapes[key] = (sh, idx, aliasing)
                 elif shapes[key][0] != sh:
                     sig = "default-spliced-into-sql" if (pos == "default" and ty in STRINGY) else "sql-depends-on-value"
+                    if aliasing or shapes[key][2]:
+                        sig = "variable-aliases-literal"
                     res.append((sig, "%s of value %d differs in shape from value %d" % (which, idx, shapes[key][1])))
                 if "UNTERMINATED" in sh:
                     res.append(("default-spliced-into-sql" if pos == "default" else "sql-depends-on-value", "unterminated string in " + which))
